@@ -117,7 +117,8 @@ def stored_result_is_rate_limit(F):
     for b in sws:
         preds = [p for p in fn.blocks.values() if not p.cleanup and any(t == b.idx for _l, t in p.succs)]
         if not preds or not all(p.kind == "call" and re.search(r"= KyroDBServiceImpl::enforce_rate_limit\(", p.term or "") for p in preds):
-            return Result("violated", "bb%d switches on a stored Result<(), Status> that is not written by enforce_rate_limit() in the preceding block" % b.idx,
+            # the typed arm would conflate this decision with the rate-limit one: undecided rather than an alarm
+            return Result("inconclusive", "bb%d switches on a stored Result<(), Status> that is not written by enforce_rate_limit() in the preceding block" % b.idx,
                           sample={"fn": fc.name, "kind": "STRUCT", "switch": "bb%d" % b.idx})
     return Result("holds", "%d stored-result switch(es), each directly after enforce_rate_limit()" % len(sws), sample={"fn": fc.name, "kind": "STRUCT", "switches": ["bb%d" % b.idx for b in sws]})
 
